@@ -626,12 +626,15 @@ func (c *Conn) observeConnClose(ctx context.Context) error {
 }
 
 func (c *Conn) reconnect(ctx context.Context) error {
+	// the mutex guards the wireConn field only; it is not held while dialling, which can take as long as the network
+	// likes and would block Close (and every caller that needs the current wire connection) for that long
 	c.wireConnMu.Lock()
-	defer c.wireConnMu.Unlock()
 	if !c.state.CompareAndSwapNot(connStatusClosed, connStatusReconnecting) {
+		c.wireConnMu.Unlock()
 		return errors.ErrConnectionClosed
 	}
 	c.wireConn.Close()
+	c.wireConnMu.Unlock()
 
 	oc := c.Config
 	if oc.PingTimeout.Seconds() == 0 {
@@ -656,6 +659,8 @@ func (c *Conn) reconnect(ctx context.Context) error {
 	if err := resErr; err != nil {
 		return resErr
 	}
+	c.wireConnMu.Lock()
+	defer c.wireConnMu.Unlock()
 	c.wireConn = res
 	if !c.state.CompareAndSwap(connStatusReconnecting, connStatusConnected) {
 		// Close was called while the redial was in progress: drop the fresh connection and stay closed
